@@ -12,8 +12,11 @@ CONSTANTS NF,            \* number of named fragments F1..FNF (Fi may only sprea
           NamePerms,     \* the namings explored: a set of permutations of Frags (all of them, or identity + reverse for NF = 4)
           Deviations     \* subset of {"exclude_all_unpacked", "no_dep_closure", "set_iteration"}: pre-fix behaviours
 
-Types == {"J", "I", "A"}                 \* interface J, interface I implements J, object A implements I & J
-Sup == [J |-> {"J"}, I |-> {"I", "J"}, A |-> {"A", "I", "J"}]      \* type conditions an instance position of T satisfies
+\* interface J, interface I implements J, objects A and B implement I & J.  Fields have type J, I or A; a fragment may also
+\* be on B -- inside a field of type A it can never apply, yet it is part of every document that reaches it
+Types == {"J", "I", "A", "B"}
+FieldTypes == {"J", "I", "A"}
+Sup == [J |-> {"J"}, I |-> {"I", "J"}, A |-> {"A", "I", "J"}, B |-> {"B", "I", "J"}]      \* type conditions an instance position of T satisfies
 IsAbstract(T) == T \in {"J", "I"}
 StrictSub(S, T) == S # T /\ T \in Sup[S]
 Frags == 1..NF
@@ -21,10 +24,14 @@ Perms(S) == {p \in [1..Cardinality(S) -> S] : \A i, j \in 1..Cardinality(S) : i 
 
 \* a fragment definition: its type condition, whether its selection set contains an inline fragment (on A),
 \* the fragments it spreads directly
+\* validation rule PossibleFragmentSpreads: a fragment may be spread where its type condition can apply to some object
+Poss == [J |-> {"A", "B"}, I |-> {"A", "B"}, A |-> {"A"}, B |-> {"B"}]
+Overlap(S, T) == Poss[S] \cap Poss[T] # {}
 FragDefs == {d \in [Frags -> [on : Types, inl : BOOLEAN, spreads : SUBSET Frags]] :
-               \A f \in Frags : \A g \in d[f].spreads : g < f}
+               \A f \in Frags : /\ (d[f].inl => Overlap(d[f].on, "A"))            \* its inline fragment is "... on A"
+                                /\ \A g \in d[f].spreads : g < f /\ Overlap(d[f].on, d[g].on)}
 \* an operation: a sequence of root fields, each [T: type of the field, fs: fragments spread directly in its selection set]
-Fields == [T : Types, fs : (SUBSET Frags) \ {{}}]
+Fields == [T : FieldTypes, fs : (SUBSET Frags) \ {{}}]
 OpsOf == UNION {[1..n -> Fields] : n \in 1..MaxFields}
 
 VARIABLES defs, ops,          \* the input (fixed by Init)
@@ -65,7 +72,8 @@ FieldRes(D, fld) == [ct \in ClassTypes(D, fld) |->
 Init ==
   /\ defs \in FragDefs
   /\ nm \in NamePerms
-  /\ ops \in UNION {[1..n -> OpsOf] : n \in 1..MaxOps}
+  /\ ops \in {o \in UNION {[1..n -> OpsOf] : n \in 1..MaxOps} :
+               \A k \in DOMAIN o : \A i \in DOMAIN o[k] : \A f \in o[k][i].fs : Overlap(o[k][i].T, defs[f].on)}
   /\ phase = "adding" /\ done = 0 /\ unpacked = {} /\ mixins = {} /\ opBases = <<>>
   /\ names = {} /\ deps = <<>> /\ order = <<>> /\ module = {}
 
